@@ -240,8 +240,31 @@ def main(argv=None):
     for f in getattr(prop, 'QUICK_BOUNDED', []):
         if os.environ.get('PYVC_NO_BOUNDED'):
             break
+        # watchdog: a stand-in normally takes seconds to a minute; real code
+        # that hangs under it must not hang the check
+        import signal
+
+        class _Slow(Exception):
+            pass
+
+        def _alarm(sig, frm):
+            raise _Slow()
+        guard = 'termination' not in f.__name__     # has its own alarms
+        if guard:
+            old_h = signal.signal(signal.SIGALRM, _alarm)
+            signal.alarm(int(os.environ.get('PYVC_STANDIN_LIMIT', '1200')))
         try:
-            b = f(seed)
+            try:
+                b = f(seed)
+            finally:
+                if guard:
+                    signal.alarm(0)
+                    signal.signal(signal.SIGALRM, old_h)
+        except _Slow:
+            undecided.append('bounded stand-in %s did not finish within the '
+                             'time limit (slow machine, or the real code '
+                             'hangs on one of its inputs)' % f.__name__)
+            continue
         except (NameError, AttributeError, ImportError) as e:
             # the harness of the stand-in does not fit the code any more
             # (a global it sets is gone, a function was moved): undecided
